@@ -76,7 +76,7 @@ func runTraceDecision(c *core.Ctx) {
 			bools: []string{"$.enabled"}, ref: on},
 		{fn: "VClockSink.GetVClock", key: "returns-current-clock", why: "the logged / attached clock is the sink's current clock", find: func(info *types.Info, n ast.Node) bool {
 			r, ok := n.(*ast.ReturnStmt)
-			return ok && len(r.Results) == 1 && an.SelectedField(info, r.Results[0]) == clock
+			return ok && len(r.Results) == 1 && an.SelectedField(info, resolveAnywhere(e, info, r.Results[0])) == clock
 		}, bools: []string{"$.enabled"}, ref: on},
 		{fn: "VClockSink.SetEnabled", key: "stores-switch", why: "enabling takes effect", find: func(info *types.Info, n ast.Node) bool {
 			_, ok := fieldIsAssigned(info, n, an.Field(sk, "enabled"))
